@@ -24,6 +24,22 @@ log = logging.getLogger(__name__)
 _compilers = None
 
 
+class _NoAbbreviationParser(argparse.ArgumentParser):
+    """
+    An argparse.ArgumentParser that never takes an argument for a longer
+    option it is a prefix of. allow_abbrev=False only covers options that
+    start with two dashes; compiler options start with one (-fsycl is not
+    -fsycl-is-device, -mavx is not -mavx2).
+    """
+
+    def _get_option_tuples(self, option_string):
+        return [
+            option
+            for option in super()._get_option_tuples(option_string)
+            if option[1] == option_string[:2]
+        ]
+
+
 class _StoreSplitAction(argparse.Action):
     """
     A custom argparse.Action that splits the value based on a user-provided
@@ -387,7 +403,7 @@ class ArgumentParser:
         namespace._passes = {}
 
         # Configure the parser for arguments common to all compilers.
-        parser = argparse.ArgumentParser(
+        parser = _NoAbbreviationParser(
             add_help=False,
             exit_on_error=False,
             allow_abbrev=False,
